@@ -478,8 +478,13 @@ impl World {
     /// Remove every reference to the object, then create the given ones in the given order through
     /// the real `object::Storage::update`.
     pub fn present(&self, refs: &[(usize, Oid)]) {
+        self.present_for(&self.type_name, &self.object, refs)
+    }
+
+    /// Same for any object of the repository.
+    pub fn present_for(&self, type_name: &TypeName, object: &ObjectId, refs: &[(usize, Oid)]) {
         let repo: &Repository = &self.repo;
-        let pattern = radicle::git::refs::storage::cobs(&self.type_name, &self.object);
+        let pattern = radicle::git::refs::storage::cobs(type_name, object);
         let names: Vec<String> = repo
             .backend
             .references_glob(pattern.as_str())
@@ -490,7 +495,7 @@ impl World {
             repo.backend.find_reference(&n).expect("find ref").delete().expect("delete ref");
         }
         for (ns, oid) in refs {
-            repo.update(&self.namespaces[*ns], &self.type_name, &self.object, oid).expect("update ref");
+            repo.update(&self.namespaces[*ns], type_name, object, oid).expect("update ref");
         }
     }
 
